@@ -17,6 +17,8 @@ from typing import Any, Dict, List, Optional, Tuple
 TOKEN = re.compile(r"\s*(>=|<=|<>|!=|=|<|>|\(|\)|,|-|\+|\*|/|%|'[^']*'|[A-Za-z_][A-Za-z_0-9]*|\d+(?:\.\d+)?)")
 # functions with a fixed arithmetic meaning the evaluator knows (SQLite semantics; FLOOR as registered by the library)
 FUNCTIONS = {"TYPEOF", "FLOOR"}
+# MOD(a, b) of PostgreSQL / MySQL / Spark / BigQuery: the truncating remainder, sign of the dividend (their documentation), exact on integers
+FUNCTIONS2 = {"MOD"}
 KEYWORDS = {"CASE", "WHEN", "THEN", "ELSE", "END", "AND", "OR", "NOT", "IS", "NULL", "TRUE", "FALSE", "COALESCE"}
 
 
@@ -172,6 +174,13 @@ class Parser:
                     a = self.expr()
                     self.eat(")")
                     return ("fn", u, a)
+                if u in FUNCTIONS2:
+                    self.eat("(")
+                    a = self.expr()
+                    self.eat(",")
+                    b = self.expr()
+                    self.eat(")")
+                    return ("fn2", u, a, b)
                 raise Opaque(f"function {p}")
             if u in KEYWORDS:
                 raise Opaque(f"keyword {p} in value position")
@@ -210,6 +219,19 @@ def ev(e, env: Dict[str, Any]):
             if v is None:
                 return None
             return math.floor(v) if isinstance(v, int) else float(math.floor(v))
+        raise Opaque(f"function {e[1]}")
+    if k == "fn2":
+        a, b = ev(e[2], env), ev(e[3], env)
+        if a is None or b is None:
+            return None
+        if e[1] == "MOD":
+            import math
+            if b == 0:
+                return None
+            if isinstance(a, int) and isinstance(b, int):
+                r = abs(a) % abs(b)
+                return r if a >= 0 else -r
+            return math.fmod(a, b)
         raise Opaque(f"function {e[1]}")
     if k == "arith":
         a, b = ev(e[2], env), ev(e[3], env)
